@@ -205,8 +205,40 @@ def gen_churn_scenario(rng, index):
     return {"index": index, "faults_enabled": False, "n_slots": n_slots, "texts": texts, "ops": ops, "family": "churn"}
 
 
+def gen_deep_scenario(rng, index):
+    """Texts that run into the interpreter's depth limits (recursion limit, nesting limits of compile()) next to ordinary ones: their
+    verdicts depend on process-wide settings, so 'raises every time' and 'no operation on one evaluator affects another' also say that no
+    operation may leave such a setting changed. Every entry into the package happens at one fixed stack depth (Runner._lib)."""
+    name = rng.choice(["exp_a", "deep"])
+    progs = [gen.gen_program(rng, f"r{index}t0", depths=[0, 1], compact=True, p_giant=0.0, name=name)]
+    for j in range(rng.choice([2, 3, 4])):
+        progs.append(gen.deep_program(rng, f"r{index}t{len(progs)}", name if rng.random() < 0.7 else "deep2"))
+    if rng.random() < 0.5:
+        progs.append(gen.gen_invalid(rng, progs[0], f"r{index}t{len(progs)}"))
+    texts = [{"tid": p.tid, "text": p.text, "kind": p.kind, "note": p.note, "panel": gen.gen_panel(rng, p, n=4, ascii_only=True)} for p in progs]
+    n_slots = rng.choice([1, 2, 3])
+    ops, prev = [], None
+    for _ in range(rng.choice([6, 10, 16, 24])):
+        r = rng.random()
+        if prev is not None and r < 0.35:
+            op = {"op": "recompile", "slot": prev["slot"], "t": prev["t"]}                    # the same text again, same evaluator
+        elif prev is not None and r < 0.5:
+            op = {"op": "new", "slot": rng.randrange(n_slots), "t": prev["t"]}               # the same text again, another evaluator
+        elif r < 0.9:
+            op = {"op": rng.choice(["new", "recompile", "recompile"]), "slot": rng.randrange(n_slots), "t": rng.randrange(len(progs))}
+        else:
+            t = rng.randrange(len(progs))
+            op = {"op": "call", "slot": rng.randrange(n_slots), "fields": gen.gen_fields(rng, progs[t], ascii_only=True)}
+        ops.append(op)
+        prev = op if op["op"] != "call" else prev
+    return {"index": index, "faults_enabled": False, "n_slots": n_slots, "texts": texts, "ops": ops, "family": "deep",
+            "cold_ref": rng.random() < 0.5}
+
+
 def gen_scenario(rng, index, faults_enabled):
     """Returns a JSON-serialisable scenario: alphabet + panels + op list."""
+    if index % 20 == 5:
+        return gen_deep_scenario(rng, index)
     if index % 20 == 19:
         return gen_sweep_scenario(rng, index)
     if index % 20 == 9:
@@ -302,13 +334,47 @@ def gen_scenario(rng, index, faults_enabled):
             ops[at:at] = seq
     # 'cold reference': the pristine verdicts come from a SEPARATE fresh process, so that the process under test has compiled
     # nothing before its history starts (first-compile-in-a-process effects are not healed or pre-paid by the reference)
-    return {"index": index, "faults_enabled": bool(faults_enabled), "n_slots": n_slots, "texts": texts, "ops": ops,
-            "cold_ref": rng.random() < 0.25}
+    sc = {"index": index, "faults_enabled": bool(faults_enabled), "n_slots": n_slots, "texts": texts, "ops": ops,
+          "cold_ref": rng.random() < 0.25}
+    # clock faults (drawn last, so the rest of the scenario is what it was before clocks were simulated): idle periods between
+    # operations - seconds to a year on both clocks - and steps of the wall clock alone, also backwards
+    if rng.random() < 0.3:
+        from .common import gen_idle
+
+        for _ in range(rng.choice([1, 1, 2, 3])):
+            ops.insert(rng.randrange(1, len(ops) + 1), gen_idle(rng))
+    return sc
 
 
 # ---------------------------------------------------------------------------
 # execution
 # ---------------------------------------------------------------------------
+def _stack_depth():
+    f, n = sys._getframe(), 0
+    while f is not None:
+        n += 1
+        f = f.f_back
+    return n
+
+
+def _pad_call(n, fn, a, kw):
+    if n <= 0:
+        return fn(*a, **kw)
+    return _pad_call(n - 1, fn, a, kw)
+
+
+NORM_DEPTH = 150
+
+
+def at_depth(target, fn, *a, **kw):
+    """Calls fn with exactly `target` Python frames below it, whatever the harness's own call depth is: the outcome of an operation
+    on a text that exhausts the interpreter's recursion limit is then a function of (text, limit) and not of who asked."""
+    d = _stack_depth()
+    if d + 1 > target:
+        raise HarnessError(f"harness stack depth {d} exceeds the normalised depth {target}")
+    return _pad_call(target - d - 1, fn, a, kw)
+
+
 class Violation(Exception):
     def __init__(self, vclass, detail):
         super().__init__(vclass)
@@ -331,19 +397,27 @@ class Runner:
     def bump(self, key, n=1):
         self.stats[key] = self.stats.get(key, 0) + n
 
+    norm_depth = None
+
+    def _lib(self, fn, *a, **kw):
+        """Every entry into the package goes through here; in 'deep' scenarios at a fixed stack depth."""
+        if self.norm_depth:
+            return at_depth(self.norm_depth, fn, *a, **kw)
+        return fn(*a, **kw)
+
     # -- pristine judgement ------------------------------------------------
     def judge(self, t, all_tids):
         """The tree's own verdict on a text, with clean stdio and no fault."""
         self.out.fail_errno = self.err.fail_errno = None
         try:
-            ev = self.EE(t["text"])
+            ev = self._lib(self.EE, t["text"])
         except Exception as e:  # noqa: BLE001
             j = {"accepts": False, "exc": type(e).__name__, "ev": None, "ref": None}
         else:
             ref = []
             for i, fields in enumerate(t["panel"]):
                 random.seed(1000 + i)
-                ref.append(outcome_of(ev, **fields))
+                ref.append(self._lib(outcome_of, ev, **fields))
             j = {"accepts": True, "exc": None, "ev": ev, "ref": ref}
             for o in ref:
                 self.check_foreign(o, t["tid"], all_tids, "pristine evaluator of " + t["tid"])
@@ -370,6 +444,7 @@ class Runner:
         texts = sc["texts"]
         all_tids = {t["tid"] for t in texts}
         self.sources = {t["tid"]: t["text"] for t in texts}
+        self.norm_depth = NORM_DEPTH if sc.get("family") == "deep" else None
         old = sys.stdout, sys.stderr
         sys.stdout, sys.stderr = self.out, self.err
         try:
@@ -412,12 +487,18 @@ class Runner:
 
     def run_here(self, sc, trace=None):
         """Returns dict(result='ok'|'violation', ...). Never raises for property violations."""
+        from .common import SimClock
+
         old_out, old_err = sys.stdout, sys.stderr
         sys.stdout, sys.stderr = self.out, self.err
+        # the run's clocks: start value from the scenario, moved only by reads (1 us each) and by `idle` operations
+        self.clock = SimClock(wall0=1_700_000_000.0 + (sc.get("index", 0) % 1000) * 86400.0 * 0.37, mono0=5_000.0 + sc.get("index", 0) % 977)
+        self.clock.install()
         try:
             return self._run(sc, trace)
         finally:
             sys.settrace(None)
+            self.clock.uninstall()
             sys.stdout, sys.stderr = old_out, old_err
 
     def _run(self, sc, trace):
@@ -427,6 +508,7 @@ class Runner:
         step_log = []
         info = {"ops_executed": 0, "states": set(), "crash_sites": set()}
         self.cold_ref = bool(sc.get("cold_ref"))
+        self.norm_depth = NORM_DEPTH if sc.get("family") == "deep" else None
         try:
             if self.cold_ref:
                 from .common import run_isolated
@@ -465,7 +547,7 @@ class Runner:
                         panel = texts[model[s]]["panel"]
                         i = gen.hash_str(repr(sorted(op["fields"].items(), key=lambda kv: kv[0]))) % len(panel)
                         random.seed(1000 + i)
-                        got = outcome_of(slots[s], **panel[i])
+                        got = self._lib(outcome_of, slots[s], **panel[i])
                         rec["got"] = got
                         self.bump("calls")
                         if got != judged[model[s]]["ref"][i]:
@@ -473,9 +555,9 @@ class Runner:
                                                                "accepted": texts[model[s]]["tid"]})
                     elif slots[s] is not None and not tainted[s]:
                         random.seed(77)
-                        got = outcome_of(slots[s], **op["fields"])
+                        got = self._lib(outcome_of, slots[s], **op["fields"])
                         random.seed(77)
-                        exp = outcome_of(judged[model[s]]["ev"], **op["fields"])
+                        exp = self._lib(outcome_of, judged[model[s]]["ev"], **op["fields"])
                         rec["got"] = got
                         self.bump("calls")
                         if got != exp:
@@ -492,10 +574,18 @@ class Runner:
                     self.bump("fault.lifetime_drop_gc")
                 elif kind == "gc":
                     gc.collect()
+                elif kind == "idle":
+                    self.clock.advance(op["dt"], op.get("wall_step", 0.0))
+                    self.bump("fault.clock_idle_period")
+                    self.bump("sim_idle_seconds", int(op["dt"]))
+                    if op.get("wall_step"):
+                        self.bump("fault.clock_wall_step_back" if op["wall_step"] < 0 else "fault.clock_wall_step_forward")
                 else:
                     raise HarnessError("unknown op " + kind)
-                # cross-invariant after every step, for every live slot
-                self._check_all(step, op, texts, judged, slots, model, tainted, all_tids)
+                # cross-invariant after every step, for every live slot (not straight after an idle period: the probe calls would
+                # themselves end the idleness the next operation is meant to meet)
+                if kind != "idle":
+                    self._check_all(step, op, texts, judged, slots, model, tainted, all_tids)
             except SimDeadlock as e:
                 sys.settrace(None)
                 v = Violation("operation-never-returns", {"op": op, "why": "the operation blocks on a lock that an earlier (finished or failed) "
@@ -578,7 +668,7 @@ class Runner:
         try:
             if kind == "new":
                 try:
-                    obj = self.EE(t["text"])
+                    obj = self._lib(self.EE, t["text"])
                     res = ("ok",)
                 except SimDeadlock:
                     raise
@@ -588,7 +678,7 @@ class Runner:
             else:
                 obj = None
                 try:
-                    r = slots[s].recompile(t["text"])
+                    r = self._lib(slots[s].recompile, t["text"])
                     res = ("ok",) if r is None else ("ok-nonnone", repr(r))
                 except SimDeadlock:
                     raise
@@ -697,9 +787,9 @@ class Runner:
             panel = texts[ti]["panel"]
             for i, fields in enumerate(panel):
                 random.seed(1000 + i)
-                got = outcome_of(ev, **fields)
+                got = self._lib(outcome_of, ev, **fields)
                 if got != j["ref"][i]:
-                    if s != target and op["op"] != "gc":
+                    if s != target and op["op"] not in ("gc", "idle"):
                         vclass = "other-slot-changed"
                     else:
                         res = None
